@@ -721,6 +721,24 @@ class Program:
                     for item in node.items:
                         if item.optional_vars is not None:
                             pairs.append((item.optional_vars, item.context_expr, None))
+                elif isinstance(node, ast.ImportFrom):
+                    base = node.module or ""
+                    if node.level:
+                        parts = func.module.name.split(".")
+                        base = ".".join(parts[: len(parts) - node.level] + ([base] if base else []))
+                    for alias in node.names:
+                        found = self.lookup_qualified(f"{base}.{alias.name}")
+                        typ = self._found_type(found)
+                        if typ is not None:
+                            env[alias.asname or alias.name] = typ
+                    continue
+                elif isinstance(node, ast.Import):
+                    for alias in node.names:
+                        found = self.lookup_qualified(alias.name)
+                        typ = self._found_type(found)
+                        if typ is not None:
+                            env[alias.asname or alias.name.split(".")[0]] = typ
+                    continue
                 elif isinstance(node, ast.ExceptHandler) and node.name and node.type is not None:
                     exc_name = dotted(node.type)
                     found = self._lookup_dotted(func.module, exc_name) if exc_name else None
